@@ -130,10 +130,19 @@ def run(prop, tier, seed, replay=None):
     impl, model = None, None
     aborts = 0
     if ok_h:
-        impl, aborts = vlib.run_impl(exe, cpath, len(cases))
-    if ok_d:
+        if getattr(prop, "shards", 1) > 1 and not replay:
+            impl, aborts = vlib.run_impl_sharded(exe, cases, outdir, prop.shards)
+        else:
+            impl, aborts = vlib.run_impl(exe, cpath, len(cases))
+    mpath = cpath
+    if ok_d and impl is not None and hasattr(prop, "model_input"):
+        # history acceptance: the model is run on what the implementation produced
+        mpath = os.path.join(outdir, "model_in_%s.txt" % tier)
+        vlib.write_cases(mpath, [prop.model_input(c, impl[i] if i < len(impl) else [])
+                                 for i, c in enumerate(cases)])
+    if ok_d and not (hasattr(prop, "model_input") and impl is None):
         try:
-            model = vlib.run_model(prop.model_name, cpath)
+            model = vlib.run_model(prop.model_name, mpath)
         except RuntimeError as e:
             notes.append(str(e))
             ok_d = False
@@ -175,9 +184,10 @@ def run(prop, tier, seed, replay=None):
             if what is None and impl_rel is not None and impl_rel[i] != io:
                 # debug and release profiles must agree (overflow semantics differ there)
                 what = prop.oracle(c, impl_rel[i]) or "release profile result differs from debug profile"
+            expected = prop.model_expected(c, io) if hasattr(prop, "model_expected") else io
             if what is not None:
                 oracle_hits.append((i, c, io, mo, what))
-            elif model is not None and mo != io:
+            elif model is not None and mo != expected:
                 disagreements.append((i, c, io, mo))
 
     def is_fail(case):
@@ -189,10 +199,13 @@ def run(prop, tier, seed, replay=None):
         if prop.oracle(case, r[0]) is not None:
             return True
         try:
+            if hasattr(prop, "model_input"):
+                vlib.write_cases(p, [prop.model_input(case, r[0])])
             m = vlib.run_model(prop.model_name, p, timeout=30)
         except RuntimeError:
             return False
-        return m[0] != r[0] and r[0][:1] != [99999] and m[0][:1] != [99999]
+        exp = prop.model_expected(case, r[0]) if hasattr(prop, "model_expected") else r[0]
+        return m[0] != exp and r[0][:1] != [99999] and m[0][:1] != [99999]
 
     reported = 0
     for (i, c, io, mo, what) in oracle_hits:
@@ -246,8 +259,8 @@ def run(prop, tier, seed, replay=None):
         lines.append("VIOLATION property=%s replay=%s no-failing-input-found" % (pid, path))
 
     for kid, (c, what) in sorted(known_seen.items()):
-        lines.append("KNOWN-FINDING: property=%s %s: %s (witness case: %s)" % (
-            pid, kid, what, " ".join(map(str, c))))
+        w = " ".join(map(str, c[:40])) + (" ..." if len(c) > 40 else "")
+        lines.append("KNOWN-FINDING: property=%s %s: %s (witness case: %s)" % (pid, kid, what, w))
 
     # (f) evidence
     samples = []
